@@ -4,7 +4,7 @@ from . import oracle as O
 from fractions import Fraction as Fr
 
 RULE = ('closed paths with 1-3 sub-paths of 3-8 segments (lines / quadratics / cubics / mixed; self-intersecting allowed) with coordinates on the '
-        'grid k/4 (|k|<=40), generic doubles, regular polygons (vertex ordinates like 1.2e-15) and degree-raised segments; query points: 40% on rows '
+        'grid k/4 (|k|<=40), generic doubles, regular polygons (vertex ordinates like 1.2e-15), degree-raised segments and loop segments (a cubic/quadratic ending bit-exactly at its own start, alone as a sub-path or inside a contour); query points: 40% on rows '
         'y = a vertex / end-point / extremum ordinate (bit-equal), 20% on columns, 40% generic; all filtered to distance > 10*delta from the path '
         '(delta = 1e-6 extent, evaluated in exact arithmetic). Oracle: exact crossing count on the generic row y+eta over Q (Sturm isolation); '
         'polylines additionally: implementation == exact rational model; curves: implementation == Float model; metamorphic: reverse negates, '
@@ -133,6 +133,12 @@ def rand_path(rng, how, kinds):
                     p1, p2 = rnd_pt(rng, how), rnd_pt(rng, how)
                     els.append(('C', (last[0] + (2.0 / 3.0) * (p1[0] - last[0]), last[1] + (2.0 / 3.0) * (p1[1] - last[1])),
                                 (p2[0] + (2.0 / 3.0) * (p1[0] - p2[0]), p2[1] + (2.0 / 3.0) * (p1[1] - p2[1])), p2))
+            elif k == 'O':    # a loop: a cubic (sometimes a quadratic) that ends bit-exactly where it starts (teardrop inside a contour)
+                last = els[-1][-1]
+                if rng.random() < 0.75:
+                    els.append(('C', rnd_pt(rng, how), rnd_pt(rng, how), last))
+                else:
+                    els.append(('Q', rnd_pt(rng, how), last))
             else:
                 els.append((k,) + tuple(rnd_pt(rng, how) for _ in range({'L': 1, 'Q': 2, 'C': 3}[k])))
         if rng.random() < 0.8:
@@ -173,9 +179,23 @@ def queries(rng, els, n):
             yield (rng.uniform(lo_x, hi_x), rng.uniform(lo_y, hi_y))
 
 
+def teardrop(rng, how):
+    """a sub-path that is ONE cubic returning to its start (`M p C a b p Z`), alone or next to an ordinary contour"""
+    p = rnd_pt(rng, how)
+    els = [('M', p), ('C', rnd_pt(rng, how), rnd_pt(rng, how), p), ('Z',)]
+    if rng.random() < 0.4:
+        els = rand_path(rng, how, 'LQ') + els
+    return els
+
+
 def generate(rng, tier):
     n = 60 if tier == 'quick' else 4000
     for _ in range(n):
+        # closed-loop segments (end point == start point): a single segment that encloses area
+        for how in ('grid', 'generic'):
+            for els, st in ((teardrop(rng, how), f'{how}-teardrop'), (rand_path(rng, how, 'LCOO'), f'{how}-loop-segments')):
+                for q in queries(rng, els, 5):
+                    yield winding_case(els, list(q), 'curve', st)
         for how, kinds, tag in (('grid', 'L', 'poly'), ('generic', 'L', 'poly'), ('regular', 'L', 'poly'),
                                 ('grid', 'LQ', 'curve'), ('grid', 'LQC', 'curve'), ('generic', 'QC', 'curve'), ('generic', 'LR', 'curve')):
             els = rand_path(rng, how, kinds)
